@@ -159,7 +159,7 @@ impl Property for C11Prop {
         "random pairs (A, B) of instruction sequences of <= 10 (quick) / <= 16 (thorough) items each over the shared definition generator (8 definition kinds, keys from pools of 2-6, several values per key, 30% body instructions), B steered towards A's keys by up to 3 extra definitions of kinds A defines. Non-trivial = at least one key defined in both and at least one defined in only one; distinct by the pair's hash."
     }
     fn max_words(&self) -> usize {
-        2 * (16 * 8 + 2) + 40
+        4 * (16 * 8 + 2) + 80
     }
     fn cases(&self, tier: Tier) -> u64 {
         tier.pick(50_000, 1_200_000)
